@@ -1,7 +1,7 @@
 (* C01 - the scheduler never unloads/closes a runner a request is still using; a runner is shut down at most
    once; a runner that has been shut down is never handed to a request.   Theorems only. *)
 From Coq Require Import List ZArith NArith Bool.
-From V Require Import Sched.Lts Sched.Reach Sched.InvClose Sched.InvLock Sched.InvRef Sched.Thm Sched.Refute Sched.Examples.
+From V Require Import Sched.Lts Sched.Reach Sched.InvClose Sched.InvLock Sched.InvRef Sched.InvLoad Sched.Thm Sched.Refute Sched.Examples.
 Import ListNotations.
 
 (* In the event history of ANY run of the scheduler model (any configuration, any number of models and
@@ -26,6 +26,34 @@ Print Assumptions C01_no_grant_closed.
 Example C01_no_grant_closed_nonvacuous :
   fixed cfg_on /\ exists s ev, run cfg_on (init_m 1) ex_load_unload = Some (s, ev) /\ In (EReply 0 (ROk 0 false)) ev.
 Proof. split. reflexivity. vm_compute. eexists; eexists; split. reflexivity. simpl. tauto. Qed.
+
+(* A request receives a usable runner or an error: in ANY run (any configuration) a reply "success r" is sent only
+   from a state in which the load of r has completed (WaitUntilRunning returned nil: loading = false).  Rests on:
+   load()'s goroutine holds refMu(r) from the registration of r until the load has succeeded or failed; needsReload,
+   which reads the runner under refMu(r), sends a runner still marked loading - an abandoned load - to the expiry
+   path (second theorem); the flag never becomes true again (Sched/InvLoad.v). *)
+Theorem C01_no_grant_loading :
+  forall c m ls s ev l s' e q r cl, run c (init_m m) ls = Some (s, ev) ->
+  step c s l = Some (s', e) -> In (EReply q (ROk r cl)) e -> exists x, getr s r = Some x /\ r_loading x = false.
+Proof.
+  intros c m ls s ev l s' e q r cl H Hs Hin. apply rloading_false.
+  eapply no_grant_loading; eauto. eapply run_Reach; eauto.
+Qed.
+Print Assumptions C01_no_grant_loading.
+
+Theorem C01_abandoned_load_not_reused :
+  forall c s t q r x y, getr s r = Some x -> getq s q = Some y -> r_mu x = None -> r_loading x = true ->
+  run_pc c s t (PNr q r) 0%Z = Some (goto s t (PExp q r), []).
+Proof.
+  intros c s t q r x y Hr Hq Hm Hl. unfold run_pc, guard, reusable. rewrite Hr, Hq, Hm, Hl. simpl.
+  rewrite orb_true_r. reflexivity.
+Qed.
+Print Assumptions C01_abandoned_load_not_reused.
+
+Example C01_no_grant_loading_nonvacuous :
+  exists s ev s' q, run cfg_on (init_m 1) (firstn 9 ex_load_unload) = Some (s, ev) /\
+    step cfg_on s (LRun 2 0%Z) = Some (s', [EReply q (ROk 0 false)]).
+Proof. vm_compute. eexists; eexists; eexists; eexists; split; reflexivity. Qed.
 
 (* For the repaired scheduler: in every reachable state (any number of models and requests, any interleaving of
    request arrival, completion / cancellation, load success / failure, ping result, keep-alive expiry, explicit
